@@ -8,6 +8,7 @@ import tpcommon as T
 from engine import Op, set_mode
 
 PROP = "C02"
+QUICK_BOOST = 2
 LEAN_MODULES = ["IsoDT.Props.C02", "IsoDT.Props.C02q"]
 RULE = ("ordered pairs built from a target instant distance (0, +-1 s, +-1 min, +-1 h, +-1 d, large) "
         "re-expressed in another representation / offset / the 24:00 form; non-trivial when the operands "
@@ -23,6 +24,12 @@ class Cmp(Op):
         for _ in range(n):
             m = gens.mode(rng)
             a, b = T.gen_pair(rng, m)
+            yield (m, a, b)
+        for _ in range(n // 4):       # both operands near (possibly different) year boundaries
+            m = gens.mode(rng)
+            a, b, _d = T.gen_year_edge_pair(rng, m)
+            if rng.random() < 0.35:   # ... or the same instant written twice
+                b = T.respell(rng, m, a, keep_rep=0.3)
             yield (m, a, b)
         # re-zoning across 1 January in both directions, every representation pair, leap/common neighbours
         for m in oracle.MODES:
@@ -89,6 +96,10 @@ class HashEq(Op):
             m = gens.mode(rng)
             a, b = T.gen_pair(rng, m, delta=0)
             yield (m, a, b)
+        for _ in range(n // 3):
+            m = gens.mode(rng)
+            a = T.gen_year_edge_tp(rng, m)
+            yield (m, a, T.respell(rng, m, a, keep_rep=0.3))
 
     def line(self, a):
         return "hasheq %s %s %s" % (a[0], T.tp_str(a[1]), T.tp_str(a[2]))
